@@ -23,24 +23,24 @@ from harness.c05_mappers import suffix as c05_suffix
 # ---- handlers use the extra arguments, stock cache key ---------------------------
 class OptRenamerArgs(C05CachedIdentityMapper):
     def map_variable(self, expr, *args, **kwargs):
-        return c05_prim.Variable(expr.name + "_r" + c05_suffix(args, kwargs))
+        return type(expr)(expr.name + "_r" + c05_suffix(args, kwargs))
 
 
 class PlainRenamerArgs(C05IdentityMapper):
     def map_variable(self, expr, *args, **kwargs):
-        return c05_prim.Variable(expr.name + "_r" + c05_suffix(args, kwargs))
+        return type(expr)(expr.name + "_r" + c05_suffix(args, kwargs))
 
 
 # ---- no extra arguments anywhere, stock cache key ----------------------------------
 class OptRenamerStock(C05CachedIdentityMapper):
     def map_variable(self, expr):
-        return c05_prim.Variable(expr.name + "_r")
+        return type(expr)(expr.name + "_r")
 
 
 # ---- no extra arguments, own two-component key (the shipped usage, test/testlib.py) -
 class OptRenamerKey(C05CachedIdentityMapper):
     def map_variable(self, expr):
-        return c05_prim.Variable(expr.name + "_r")
+        return type(expr)(expr.name + "_r")
 
     def get_cache_key(self, expr):
         return (type(expr), expr)
@@ -48,18 +48,18 @@ class OptRenamerKey(C05CachedIdentityMapper):
 
 class PlainRenamer(C05IdentityMapper):
     def map_variable(self, expr):
-        return c05_prim.Variable(expr.name + "_r")
+        return type(expr)(expr.name + "_r")
 
 
 # ---- a set-valued mapper using the extra arguments --------------------------------
 class OptCollectorArgs(C05CachedCollector):
     def map_variable(self, expr, *args, **kwargs):
-        return {c05_prim.Variable(expr.name + "_r" + c05_suffix(args, kwargs))}
+        return {type(expr)(expr.name + "_r" + c05_suffix(args, kwargs))}
 
 
 class PlainCollectorArgs(C05Collector):
     def map_variable(self, expr, *args, **kwargs):
-        return {c05_prim.Variable(expr.name + "_r" + c05_suffix(args, kwargs))}
+        return {type(expr)(expr.name + "_r" + c05_suffix(args, kwargs))}
 
 
 # ---- an integer-valued combine mapper, own key ---------------------------------------
@@ -99,7 +99,7 @@ def c05_mark_tree(name, kids):
 
 class _OvIdentHandlers:
     def map_variable(self, expr):
-        return c05_prim.Variable(expr.name + "_r")
+        return type(expr)(expr.name + "_r")
 
     def map_sum(self, expr):
         return c05_mark_tree("map_sum", [self.rec(ch) for ch in expr.children])
@@ -123,7 +123,7 @@ class _OvIdentHandlers:
 
 class OptOvIdent(C05CachedIdentityMapper):
     def map_variable(self, expr):
-        return c05_prim.Variable(expr.name + "_r")
+        return type(expr)(expr.name + "_r")
 
     def map_sum(self, expr):
         return c05_mark_tree("map_sum", [self.rec(ch) for ch in expr.children])
